@@ -159,16 +159,17 @@ Example passed_on_argument_is_outside :
 Proof. eexists. split; [vm_compute; reflexivity|]. split; vm_compute; reflexivity. Qed.
 
 (** Pure expressions (literals, identifiers, tuples, lists, indexing, all strict operators, and/or, unary
-    operators; no calls, no [?], no ranges, no sqrt): for EVERY such expression tree, every state without pending
+    operators, exclusive ranges with any step, inclusive ranges without a step or with a positive literal step;
+    no calls, no [?], no sqrt): for EVERY such expression tree, every state without pending
     return/assignment flags and every imports record, the desugaring succeeds, registers no import, and the
     emitted expression evaluates in the model of Python to exactly the value - or raises exactly the exception -
     that the reference semantics gives, in every pair of environments with the same variables and for every
-    fuel at least as large; neither side changes its environment.  ([Rel] claims nothing when the reference
+    fuel at least twice as large; neither side changes its environment.  ([Rel] claims nothing when the reference
     semantics itself is undefined: unsupported value shapes, out of fuel.) *)
 Theorem C01_pure_expressions_partial :
   forall a st i c i',
     pure a = true -> plain st -> conv a st i = Some (c, i') ->
-    i' = i /\ forall f g em ep, f <= g -> env_rel em ep -> Rel em ep (mev f a em) (cexpr g c ep).
+    i' = i /\ forall f g em ep, 2 * f <= g -> env_rel em ep -> Rel em ep (mev f a em) (cexpr g c ep).
 Proof. exact pure_expr_correct. Qed.
 
 Theorem C01_pure_expressions_convert :
